@@ -66,8 +66,8 @@ C("C14", "exploration",
   "verifies the transformation from uniform variates, not the generator; constants transcribed by hand from the papers", "DESIGN.md §4 C14")
 C("C09", "model_checking",
   "explicit-state BFS with deepcopy snapshots over real Antenna/DipoleAntenna/AntennaSystem objects, reference model compared after every transition",
-  "From the empty state of 8 object kinds (threshold Antenna, DipoleAntenna, AntennaSystem with x2 front end, AntennaSystem with a "
-  "1-sample-delay front end and lead-in; each noiseless and noisy under an owned random stream) every sequence of 21 actions (8 receive "
+  "From the empty state of 10 object kinds (threshold Antenna, DipoleAntenna, AntennaSystem with x2 front end, AntennaSystem with a "
+  "delaying front end and lead-in, AntennaSystem whose front end hands its output back on a shifted time grid (one level shallower); each noiseless and noisy under an owned random stream) every sequence of 21 actions (8 receive "
   "variants over overlapping/disjoint/nested windows, three kinds of reads, full_waveform / is_hit_during on windows whose ends sit exactly on "
   "signal edges, make_noise, clear, clear(reset_noise)) is explored to depth 5 (noiseless) / 3 (noisy) in the quick tier and 6 / 5 in the thorough tier, sharded by first action. After "
   "every transition: signal/waveform counts, grids, triggered list == filter of cached waveforms in order, is_hit, emptiness after clear, "
